@@ -138,10 +138,42 @@ pub fn run_with(path: PathBuf, src: &str, opts: &Opts) -> Outcome {
       ex.push(("stats_end".to_string(), show(&before)));
       ex.push(("stats_after_full".to_string(), show(&after)));
       ex.push(("intern_after_full".to_string(), keys.len().to_string()));
+      if crate::chkalloc::active() {
+        // every block the allocator owns: the size it accounts for it vs the size it was obtained with
+        let blocks = vm.verif_alloc_blocks();
+        let mut wrong = 0usize;
+        let mut unknown = 0usize;
+        let mut real_total = 0usize;
+        let mut first = String::new();
+        for (ptr, accounted) in blocks.iter() {
+          match crate::chkalloc::size_of(*ptr) {
+            Some(real) => {
+              real_total += real;
+              if real != *accounted {
+                wrong += 1;
+                if first.is_empty() {
+                  first = format!("accounted {} obtained {}", accounted, real);
+                }
+              }
+            },
+            None => unknown += 1,
+          }
+        }
+        ex.push((
+          "block_sizes".to_string(),
+          format!(
+            "{{\"blocks\":{},\"wrong\":{},\"unknown\":{},\"real_total\":{},\"first\":\"{}\"}}",
+            blocks.len(), wrong, unknown, real_total, first
+          ),
+        ));
+      }
     }
     ex.push(("scheduled_collections".to_string(), allocator_verif::scheduled_collections().to_string()));
-    ex.push(("layout_mismatches".to_string(), crate::chkalloc::mismatches().to_string()));
     unsafe { std::mem::ManuallyDrop::drop(&mut vm) };
+    // mismatches since the previous record of this process (the vm's destructors included)
+    let total = crate::chkalloc::mismatches();
+    let before = LAST_MISMATCHES.with(|l| l.replace(total));
+    ex.push(("layout_mismatches".to_string(), (total - before).to_string()));
     (res, ex, limit_hit)
   }));
   let limit_hit_any = vm_verif::limit_hit();
@@ -216,6 +248,10 @@ pub fn outcome_json(file: &str, o: &Outcome) -> String {
   }
   s.push('}');
   s
+}
+
+thread_local! {
+  static LAST_MISMATCHES: std::cell::Cell<usize> = const { std::cell::Cell::new(0) };
 }
 
 /// options: --gc X --full 0|1 --caches-off --probe --steps N --stats --repl --stdin-file F
